@@ -13,7 +13,19 @@ DROP = ("to:nilrecv", "from:nilarg")
 
 BASE = dict(embeds=0.0, shadow=0.0, multi=0.0, unexported=0.0,
             kinds=["same"] * 5 + ["conv"] * 3 + ["func"] * 2 + ["sub"] * 2 + ["each"] + ["none", "misconv", "oneway"],
-            names=["ident"] * 6 + ["acronym"] * 2 + ["tag"] * 2 + ["skip"], n=(3, 6))
+            names=["ident"] * 8 + ["acronym"] * 2 + ["tag"] * 2, n=(3, 6))
+
+
+def settle_way(rng, sp):
+    """a set-only field can only be written: most of the time generate just the direction that writes it
+    (the other direction is finding region F_setOnlyRead)"""
+    so = {sd: any(m.get("set") and not m.get("get") for m in sp[sd]["members"] if m["k"] == "f") for sd in ("src", "dest")}
+    if rng.random() < 0.75:
+        if so["dest"] and not so["src"]:
+            sp["flags"]["way"] = "to"
+        elif so["src"] and not so["dest"]:
+            sp["flags"]["way"] = "from"
+    return sp
 
 ZERO = re.compile(r'^(0|""|nil|false|[\w.\[\]*]+\{\})$')
 
@@ -24,7 +36,7 @@ def writes_of(src_text, recv_var, typ_fields):
     out = {}
     for line in src_text.splitlines():
         ln = line.strip()
-        m = re.match(r"^(.*), //([\w.]+)\s*$", ln)
+        m = re.match(r"^(.*),\s+//([\w.]+)\s*$", ln)
         if m:
             if not ZERO.match(m.group(1).strip()):
                 out[m.group(2)] = out.get(m.group(2), 0) + 1
@@ -74,6 +86,10 @@ def shaped(g, rng):
     out.append(("ctor-func-priority", sp))
     sp = mapgen.to_new(rng, g.pair(**dict(BASE, names=["tag", "ident"], kinds=["same"])), "src", getonly=0.6, setonly=0.0)
     out.append(("tagged-src-ctor", sp))
+    sp = mapgen.to_new(rng, g.pair(**dict(BASE, names=["skip", "ident"], kinds=["same"])), "dest", setonly=0.0)
+    out.append(("skip-tag-accessor", sp))
+    sp = mapgen.to_new(rng, g.pair(**dict(BASE, names=["ident"], kinds=["sub", "each"])), "dest", getonly=0.7, setonly=0.0)
+    out.append(("ctor-only-sub", sp))
     return out
 
 
@@ -85,8 +101,8 @@ def gen_cases(ctx):
         r = ctx.rng.random()
         sides = ("dest",) if r < 0.4 else ("src",) if r < 0.7 else ("src", "dest")
         for sd in sides:
-            mapgen.to_new(ctx.rng, sp, sd)
-        specs.append(("random", sp))
+            mapgen.to_new(ctx.rng, sp, sd, setonly=0.08)
+        specs.append(("random", settle_way(ctx.rng, sp)))
     cases = []
     for i, (feat, sp) in enumerate(specs):
         c = mapgen.make_case("a%d" % i, sp, prop="C15")
